@@ -21,7 +21,7 @@ enum {
     D_REVERSE, D_SORT, D_CONCAT, D_SWAP, D_FIND, D_FOREACH, D_CLEAR,
     S_PUSH_FRONT = 20, S_PUSH_BACK, S_POP_FRONT, S_INSERT_AFTER, S_ERASE_AFTER,
     S_REVERSE, S_SORT, S_CONCAT, S_SWAP, S_FOREACH, S_CLEAR,
-    D_HUGE_SORT = 40, S_HUGE_SORT,
+    D_HUGE_SORT = 40, S_HUGE_SORT, D_CHURN, S_CHURN,
 };
 
 static const char *l_opname(int k)
@@ -39,6 +39,7 @@ static const char *l_opname(int k)
     case S_SORT: return "s_sort"; case S_CONCAT: return "s_concat"; case S_SWAP: return "s_swap";
     case S_FOREACH: return "s_foreach"; case S_CLEAR: return "s_clear";
     case D_HUGE_SORT: return "d_huge_sort"; case S_HUGE_SORT: return "s_huge_sort";
+    case D_CHURN: return "d_churn"; case S_CHURN: return "s_churn";
     }
     return "?";
 }
@@ -627,7 +628,29 @@ static void l_exec(const plan_t *p)
         if (o->kind == D_HUGE_SORT || o->kind == S_HUGE_SORT) {
             g_cur_prop = o->kind == D_HUGE_SORT ? "C12" : "C13";
             huge_sort(o->kind == D_HUGE_SORT, o->a[1], o->a[2]);
-            cstl_dlist_init(&dl[0], doff(md[0].kind)); cstl_slist_init(&sl[0], soff(ms[0].kind));
+            cstl_dlist_init(&dl[0], doff(md[0].kind) - g_hnd); cstl_slist_init(&sl[0], soff(ms[0].kind) - g_hnd);
+            continue;
+        }
+        if (o->kind == D_CHURN || o->kind == S_CHURN) {
+            /* something that only matters on the n-th repetition: a transient element is added and removed 254 ... 65 536
+             * times in a row; the list must be what it was (the audit below compares it with the unchanged model) */
+            static const unsigned reps[] = { 254, 255, 256, 65534, 65535, 65536 };
+            static struct lelem tr; unsigned n = reps[o->a[2] % 6], q; void *got = NULL;
+            li = (int)(o->a[0] % (uint64_t)(o->kind == D_CHURN ? nd : ns)); is_d = o->kind == D_CHURN;
+            m = is_d ? &md[li] : &ms[li]; D = &dl[li]; S = &sl[li];
+            tr.magic = MAGIC; tr.tail = ~MAGIC; tr.id = -7; tr.key = key;
+            g_cur_ctx = n > 60000 ? "churn-2^16" : "churn-2^8"; g_cur_prop = is_d ? "C12" : "C13";
+            g_inlib = 1;
+            for (q = 0; q < n; q++) {
+                if (is_d) { if (q & 1) { cstl_dlist_push_back(D, HND(&tr)); got = cstl_dlist_pop_back(D); } else { cstl_dlist_push_front(D, HND(&tr)); got = cstl_dlist_pop_front(D); } }
+                else { cstl_slist_push_front(S, HND(&tr)); got = cstl_slist_pop_front(S); }
+                if (got != HND(&tr)) break;
+            }
+            g_inlib = 0;
+            if (q != n) VIOL(m, is_d, "churn", "repetition %u of push/pop of a transient element returned another element", q);
+            PROBE(n > 60000 ? "churn_2^16" : "churn_2^8");
+            EVT("churn", li, n, is_d);
+            if (is_d) audit_d(li); else audit_s(li);
             continue;
         }
         switch (o->kind) {
@@ -1053,6 +1076,7 @@ static void l_gen(prng_t *r, int mode, plan_t *p)
             else if (x < 100) kind = S_FOREACH;
             else kind = S_CLEAR;
         }
+        if ((kind == D_FIND || kind == S_FOREACH) && prng_chance(r, 1, 150)) kind = is_d ? D_CHURN : S_CHURN;
         o = plan_add(p, kind);
         o->a[0] = prng_below(r, 3);
         o->a[1] = prng_below(r, 64);
